@@ -1,9 +1,12 @@
 package c15
 
 import (
+	"encoding/json"
 	"fmt"
 	"os"
 	"sort"
+	"strings"
+	"sync"
 
 	"github.com/NVIDIA/KAI-scheduler/pkg/scheduler/log"
 
@@ -23,6 +26,15 @@ func unit(name string, node string) core.PodSpec {
 
 func unitJob(name, queue string, prio int32, age int, node string) Job {
 	return Job{Name: name, Queue: queue, Priority: prio, MinMember: 1, AgeMinutes: age, Pods: []core.PodSpec{unit(name+"-0", node)}}
+}
+
+// sizedJob is a single-pod job asking for `gpus` whole GPUs.
+func sizedJob(name, queue string, prio int32, age int, gpus int64, node string) Job {
+	p := core.PodSpec{Name: name + "-0", Gpus: gpus, Status: pod_status.Pending}
+	if node != "" {
+		p.Status, p.Node = pod_status.Running, node
+	}
+	return Job{Name: name, Queue: queue, Priority: prio, MinMember: 1, AgeMinutes: age, Pods: []core.PodSpec{p}}
 }
 
 var defaultActions = []string{"allocate", "consolidation", "reclaim", "preempt", "stalegangeviction"}
@@ -78,6 +90,9 @@ func pingpong(mult string) *World {
 }
 
 func scenario(name string) *World {
+	if w := hierScenario(name); w != nil {
+		return w
+	}
 	switch name {
 	case "lasso-consolidating-reclaim":
 		// KNOWN FINDING C15-rebound-pod-evicted-again, shape I (found by exploration, seed 7 general case 589):
@@ -221,65 +236,136 @@ func Probe(name string) string {
 	if n, _ := fmt.Sscanf(name, "gen:%d:%d", &seed, &idx); n == 2 {
 		_, w = GenCase(seed, idx)
 	}
+	if n, _ := fmt.Sscanf(name, "hier:%d:%d", &seed, &idx); n == 2 {
+		w = GenHier(u.NewRng(seed ^ hierSalt).Fork(uint64(idx)))
+	}
+	if strings.HasPrefix(name, "file:") {
+		// a world written as JSON (the World struct), e.g. the "world" of an entry of .work/C15-known.json
+		data, err := os.ReadFile(strings.TrimPrefix(name, "file:"))
+		if err != nil {
+			return err.Error() + "\n"
+		}
+		w = &World{}
+		if err := json.Unmarshal(data, w); err != nil {
+			return err.Error() + "\n"
+		}
+	}
+	if strings.HasPrefix(name, "dump:") {
+		w = scenario(strings.TrimPrefix(name, "dump:"))
+	}
 	if w == nil {
 		return "unknown scenario\n"
+	}
+	if strings.HasPrefix(name, "dump:") || os.Getenv("C15_DUMP") != "" {
+		data, _ := json.MarshalIndent(w, "", " ")
+		return string(data) + "\n"
+	}
+	if v := os.Getenv("C15_REPEAT"); v != "" {
+		// run the world several times from its initial state: how often does it end in a lasso?
+		k, lassos := 0, 0
+		fmt.Sscan(v, &k)
+		for i := 0; i < k; i++ {
+			if Run(w.Clone(), 12).LassoFrom >= 0 {
+				lassos++
+			}
+		}
+		return fmt.Sprintf("%s\nlasso in %d of %d runs\n", Describe(w), lassos, k)
 	}
 	tr := Run(w, 12)
 	return fmt.Sprintf("%s\n%s", Describe(w), tr.Dump())
 }
 
 
-// Explore runs n random worlds of a stream and prints summary statistics (debug aid).
+// Explore runs n random worlds of a stream (concurrently) and prints summary statistics (debug aid).
 func Explore(stream string, seed uint64, n int, verbose bool) string {
 	root := u.NewRng(seed)
+	if stream == "hier" {
+		root = u.NewRng(seed ^ hierSalt)
+	}
+	type res struct {
+		out string
+		st  map[string]int
+	}
+	var fam []*World
+	if stream == "hierfam" {
+		fam = hierFamily()
+		n = len(fam)
+	}
+	results := make([]res, n)
+	var wg sync.WaitGroup
+	sem := make(chan struct{}, workers())
+	for i := 0; i < n; i++ {
+		wg.Add(1)
+		sem <- struct{}{}
+		go func(i int) {
+			defer wg.Done()
+			defer func() { <-sem }()
+			results[i] = func() res {
+				out := ""
+				st := map[string]int{}
+				r := root.Fork(uint64(i))
+				var w *World
+				if stream == "hierfam" {
+					w = fam[i]
+				} else if stream == "class" {
+					w = GenClass(r, true)
+				} else if stream == "class-shaped" {
+					w = GenClass(r, false)
+				} else if stream == "hier" {
+					w = GenHier(r)
+				} else {
+					w = GenGeneral(r)
+				}
+				w0 := w.Clone()
+				tr := Run(w, 12)
+				st[fmt.Sprintf("evicting-cycles=%d", tr.EvictingCycles)]++
+				st[fmt.Sprintf("cycles=%d", len(tr.Cycles))]++
+				if tr.LassoFrom >= 0 {
+					st["LASSO"]++
+					tags := lassoTags(w0, tr)
+					st["LASSO"+tags]++
+					out += fmt.Sprintf("LASSO case %d:%s %s\n%s", i, tags, Describe(w0), tr.Dump())
+				}
+				// pipelined in cycle c but not bound in cycle c+1
+				notHonoured := false
+				for c := 0; c+1 < len(tr.Cycles); c++ {
+					bound := map[string]bool{}
+					for _, cl := range tr.Cycles[c+1].Calls {
+						if cl.Kind == "bind" {
+							bound[cl.Pod] = true
+						}
+					}
+					for _, cl := range tr.Cycles[c].Calls {
+						if cl.Kind == "pipe" && !bound[cl.Pod] {
+							notHonoured = true
+						}
+					}
+				}
+				for _, c := range tr.Cycles {
+					if c.Panic != "" {
+						st["PANIC"]++
+					}
+					for _, cl := range c.Calls {
+						st["call:"+cl.Kind+":"+cl.Action]++
+					}
+				}
+				if notHonoured {
+					st["pipelined-not-bound-next-cycle"]++
+					if verbose {
+						out += fmt.Sprintf("NOT-HONOURED case %d: %s\n%s", i, Describe(w0), tr.Dump())
+					}
+				}
+				return res{out, st}
+			}()
+		}(i)
+	}
+	wg.Wait()
 	out := ""
 	st := map[string]int{}
-	for i := 0; i < n; i++ {
-		r := root.Fork(uint64(i))
-		var w *World
-		if stream == "class" {
-			w = GenClass(r, true)
-		} else if stream == "class-shaped" {
-			w = GenClass(r, false)
-		} else {
-			w = GenGeneral(r)
-		}
-		w0 := w.Clone()
-		tr := Run(w, 12)
-		st[fmt.Sprintf("evicting-cycles=%d", tr.EvictingCycles)]++
-		st[fmt.Sprintf("cycles=%d", len(tr.Cycles))]++
-		if tr.LassoFrom >= 0 {
-			st["LASSO"]++
-			out += fmt.Sprintf("LASSO case %d: %s\n%s", i, Describe(w0), tr.Dump())
-		}
-		// pipelined in cycle c but not bound in cycle c+1
-		notHonoured := false
-		for c := 0; c+1 < len(tr.Cycles); c++ {
-			bound := map[string]bool{}
-			for _, cl := range tr.Cycles[c+1].Calls {
-				if cl.Kind == "bind" {
-					bound[cl.Pod] = true
-				}
-			}
-			for _, cl := range tr.Cycles[c].Calls {
-				if cl.Kind == "pipe" && !bound[cl.Pod] {
-					notHonoured = true
-				}
-			}
-		}
-		for _, c := range tr.Cycles {
-			if c.Panic != "" {
-				st["PANIC"]++
-			}
-			for _, cl := range c.Calls {
-				st["call:"+cl.Kind+":"+cl.Action]++
-			}
-		}
-		if notHonoured {
-			st["pipelined-not-bound-next-cycle"]++
-			if verbose {
-				out += fmt.Sprintf("NOT-HONOURED case %d: %s\n%s", i, Describe(w0), tr.Dump())
-			}
+	for _, r := range results {
+		out += r.out
+		for k, v := range r.st {
+			st[k] += v
 		}
 	}
 	keys := []string{}
